@@ -79,7 +79,7 @@ pub fn expected_fragments_ex(
     segs: &[Segment],
     rx_buffer: usize,
 ) -> Vec<(u16, Option<u16>, Vec<u8>)> {
-    expected_fragments_policy(segs, rx_buffer, false, false)
+    expected_fragments_policy(segs, rx_buffer, false, false, false)
 }
 
 /// Where the statement leaves a choice, every choice is a policy:
@@ -92,6 +92,7 @@ pub fn expected_fragments_policy(
     rx_buffer: usize,
     drop_duplicates: bool,
     assemble_broadcasts: bool,
+    ignore_foreign: bool,
 ) -> Vec<(u16, Option<u16>, Vec<u8>)> {
     let mut kept: Vec<Segment> = vec![];
     for s in segs {
@@ -115,18 +116,26 @@ pub fn expected_fragments_policy(
         }
         let mut acc: Vec<u8> = vec![];
         let mut k = i;
+        // the segment accepted last
+        let mut p = i;
         loop {
             if k > i {
-                let (p, c) = (&segs[k - 1], &segs[k]);
-                if c.fir
-                    || c.src != segs[i].src
-                    || c.peer != segs[i].peer
-                    || c.bcast != segs[i].bcast
-                    || c.seq != (p.seq + 1) & 0x3F
-                {
+                let c = &segs[k];
+                let foreign =
+                    c.src != segs[i].src || c.peer != segs[i].peer || c.bcast != segs[i].bcast;
+                if ignore_foreign && !c.fir && foreign {
+                    // a continuation segment of somebody else: not part of this fragment, and it does not end it
+                    k += 1;
+                    if k >= segs.len() {
+                        break;
+                    }
+                    continue;
+                }
+                if c.fir || foreign || c.seq != (segs[p].seq + 1) & 0x3F {
                     break;
                 }
             }
+            p = k;
             acc.extend_from_slice(&segs[k].data);
             if acc.len() > rx_buffer {
                 break;
